@@ -24,7 +24,7 @@ EXTENDS Naturals, Sequences, FiniteSets, TLC
 CONSTANTS LengthCheck, StatusCheck, MaxFaults
 
 Beh == {"Normal", "NotFound", "ServerError", "ShortRange", "LongRange", "IgnoreRange", "Drop",
-        "TruncBody"}     \* TruncBody: headers announce the full length, the connection closes mid-body
+        "TruncBody", "Forbidden"}     \* TruncBody: headers announce the full length, the connection closes mid-body
 Kinds == {"plain", "shard", "legacy"}
 
 \* request sequence of one fetch; each request: [m (method), rng (is a range
@@ -46,7 +46,7 @@ React(r, b) ==
   CASE b = "Normal" -> "go"
     [] b = "Drop" -> "error"
     [] b = "TruncBody" -> IF r.m = "HEAD" THEN "go" ELSE "error"   \* the client library detects the short body
-    [] b \in {"NotFound", "ServerError"} ->
+    [] b \in {"NotFound", "ServerError", "Forbidden"} ->
          IF r.m = "HEAD" /\ b = "NotFound" THEN "error"   \* a shard that should exist is reported missing
          ELSE IF StatusCheck \/ r.m = "HEAD" THEN "error" ELSE "garbage"
     [] b \in {"ShortRange", "LongRange", "IgnoreRange"} ->
